@@ -13,7 +13,10 @@ from mc.terms import B, DEFAULT, I, L
 LEVEL = "exploration"
 
 BINDINGS = [("ex", "http://a/"), ("", "urn:x"), ("é", "http://é/#"), ("n", "http://b#"),
-            ("q", "http://a/b#c")]
+            ("q", "http://a/b#c"),
+            # a second label for an IRI that is already bound (same namespace declared twice)
+            ("ex2", "http://a/"), ("n2", "http://b#")]
+NBASE = 5
 TRIPLES = [
     (I("http://a/x"), I("http://a/y"), L("x")),
     (I("http://b#x"), I("http://b#y"), I("http://b#x")),
@@ -26,7 +29,12 @@ PRESETS = [(8, 0, 0), (8, 1, 0), (8, 3, 0), (8, 4, 0)]
 def binding_lists(maxlen: int) -> list:
     out = [()]
     for k in range(1, maxlen + 1):
-        out += list(itertools.permutations(range(len(BINDINGS)), k))
+        out += list(itertools.permutations(range(NBASE), k))
+    # the same namespace IRI declared twice with another declaration in between
+    for x, alias in ((0, 5), (3, 6)):
+        for y in range(NBASE):
+            if y != x:
+                out.append((x, y, alias))
     return out
 
 
@@ -104,6 +112,9 @@ def run_case(case: dict) -> list[tuple[str, str]]:
     # --- what the readers deliver
     read = DR.g_read if api == "generic" else DR.r_read
     user = [(p, i) for p, i in bindings]
+    if api == "rdflib":
+        user = [b for b in user if b in src_ns]  # rdflib itself keeps one prefix per namespace
+    fails += grouped_twice(api, cls, seq, bindings, preset, src_ns, expect_st, as_set)
     for reader in ("flat", "to_graph", "grouped"):
         try:
             ev_on = read(on, reader)
@@ -162,6 +173,37 @@ def run_case(case: dict) -> list[tuple[str, str]]:
     except Exception as e:  # noqa: BLE001
         fails.append(("reserialize-raised", f"{type(e).__name__}: {e}"))
     return fails
+
+
+def grouped_twice(api, cls, seq, bindings, preset, src_ns, expect_st, as_set) -> list:
+    """Two sinks/graphs with the same bindings through one shared stream: the declarations are
+    written once per sink and must be delivered correctly each time."""
+    if len(seq) != 2 or not bindings:
+        return []
+    opts = DR.make_options(cls, preset, 250, True, ns=True, generalized=False, rdf_star=False)
+    out = io.BytesIO()
+    try:
+        if api == "generic":
+            from pyjelly.integrations.generic import serialize as gser  # noqa: PLC0415
+
+            gser.grouped_stream_to_file((DR.g_sink([st], bindings) for st in seq), out,
+                                        options=opts)
+        else:
+            from pyjelly.integrations.rdflib import serialize as rser  # noqa: PLC0415
+
+            rser.grouped_stream_to_file((r_source(cls, [st], bindings) for st in seq), out,
+                                        options=opts)
+        _, per = jspec.decode_frames(jwire.read_delimited(out.getvalue()))
+    except Exception as e:  # noqa: BLE001
+        return [("grouped-twice-raised", f"two sinks with the same bindings: {type(e).__name__}: {e}")]
+    ns = [(n, i[1]) for n, i in jspec.namespaces(per)]
+    if ns != src_ns + src_ns:
+        return [("grouped-twice", f"two sinks with bindings {src_ns} written through one stream "
+                                  f"declare {ns}")]
+    got = [T.norm_st(x) for x in jspec.statements(per)]
+    if (set(got) != set(expect_st)) if as_set else (got != expect_st):
+        return [("grouped-twice", f"statements changed: {got} vs {expect_st}")]
+    return []
 
 
 def shard(job) -> dict:
